@@ -144,6 +144,32 @@ def lspDiagnostics (a : Analysis F) : Option (List LspDiag) :=
           some (ds ++ [{ line := f, startCol := utf16Col text x, endCol := utf16Col text y, isError := isErr, text := msg }]))
     (some [])
 
+/-! ### command line: how a program gets into the interpreter that runs it -/
+
+/-- `CliArgs::configure_interpreter` (the seed is time-based in the real CLI; a parameter here) -/
+def cliConfigure (w t : Bool) (seed : Nat) (s : St F) : St F :=
+  { s with warnings := w, tracing := t, rng := rngNew seed }
+
+/-- interactive mode: `create_interpreter`, then the lines are typed one by one -/
+def cliCreate (w t : Bool) (seed : Nat) : St F := cliConfigure w t seed {}
+
+/-- file mode: `load_source_file` — analyse the file, turn the analyzer's program into an
+    interpreter, apply the command-line options to it -/
+def cliLoad (fuel : Nat) (w t : Bool) (seed : Nat) (text : Str) : St F :=
+  cliConfigure w t seed (analyzeText (F := F) fuel text).intoInterpreter
+
+/-- does file mode refuse to run (static errors and no --skip-check)? -/
+def cliRefuses (fuel : Nat) (skipCheck : Bool) (text : Str) : Bool :=
+  !skipCheck && (analyzeText (F := F) fuel text).messages.any fun d => match d with | .error _ _ => true | _ => false
+
+/-- typing the lines of a file one by one (each is a host call from Idle) -/
+def typeLines (fuel : Nat) : List Str → St F → St F
+  | [], s => s
+  | l :: ls, s =>
+    match startEvaluating fuel l s with
+    | .ok _ s' => typeLines fuel ls s'
+    | .err _ s' => typeLines fuel ls s'
+
 /-- what the server does with a document -/
 def lspAnalyze (fuel : Nat) (doc : Str) : Analysis F := analyzeFile fuel (splitDocumentLines doc)
 
